@@ -19,6 +19,7 @@
 #include <memory>
 #include <mutex>
 #include <set>
+#include <unordered_set>
 #include <string>
 #include <thread>
 #include <vector>
@@ -119,6 +120,10 @@ struct AllocWorld {
   Tracked<uint64_t> res[MAXV]; // the resource the id stands for (array addressed by id, as the doc suggests)
   uint64_t next_token = 1;
   uint64_t hist = 0;
+  // every value@version ever returned by allocate(): the doc promises "version + id is unique within the
+  // visible competition range" (the version exists to tell two incarnations of a value apart); with fewer
+  // deallocations than the version type can count a pair can never be issued twice
+  std::unordered_set<uint64_t> issued;
   AllocWorld() {
     for (int i = 0; i < MAXV; i++) { owner[i] = -1; token[i] = 0; }
   }
@@ -135,6 +140,9 @@ struct AllocWorld {
       dsched::fail("two-owners", "allocate in T%d returned value %u which T%d still holds", me, (unsigned)v, owner[v]);
     T e = alloc.end();
     if (v >= e) dsched::fail("id-range", "allocate returned value %u but end() == %u", (unsigned)v, (unsigned)e);
+    if (!issued.insert(((uint64_t)v << 32) | (uint64_t)id.version).second)
+      dsched::fail("id-reissued", "allocate in T%d returned %u@%u, exactly the id (value and version) that an earlier allocate returned", me,
+                   (unsigned)v, (unsigned)id.version);
     owner[v] = me;
     token[v] = next_token++;
     if (quiet) res[v].v = token[v];
@@ -598,7 +606,7 @@ struct Item {
   }
 };
 
-enum COpKind { C_TAKE, C_TAKE_RELEASED, C_TAKE_STALE, C_EMPLACE };
+enum COpKind { C_TAKE, C_TAKE_RELEASED, C_TAKE_STALE, C_EMPLACE, C_CYCLE };
 struct COp {
   COpKind kind;
   uint32_t arg;
@@ -628,7 +636,16 @@ struct BoxWorld {
   uint64_t hist = 0;
   int taking[4096] = {};  // per deposit: takes in flight
 
+  // every receipt (slot, version) ever returned by emplace: a receipt issued twice means that the first
+  // one, whose item was taken, matches the item deposited under the second one
+  std::unordered_set<uint64_t> issued;
+  void note_receipt(VV id, int me) {
+    if (!issued.insert(((uint64_t)id.value << 32) | id.version).second)
+      dsched::fail("stale-id", "emplace in T%d returned receipt (slot %u version %u) a second time: the earlier receipt with these bits%s matches the new item",
+                   me, id.value, id.version, " (already used or still outstanding)");
+  }
   BoxWorld() {
+    issued.reserve(1 << 18);
     deps.reserve(4096);
   }
 
@@ -640,15 +657,17 @@ struct BoxWorld {
       id = box.emplace(x);
     }
     if ((int)id.value >= MAXS) dsched::fail("id-range", "emplace returned slot %u", id.value);
+    note_receipt(id, me);
     if (occupied[id.value]) dsched::fail("two-owners", "emplace in T%d reused slot %u while its previous item is still deposited or held", me, id.value);
     occupied[id.value] = true;
     if (quiet) res[id.value].v = x;
     else res[id.value].set(x, "slot resource");
     if (deps.size() >= 4000) dsched::discard("too many deposits");
     deps.push_back(Dep{id, x});
+    size_t di = deps.size() - 1;  // fixed before the next schedule point
     hist = hist * 1000003 + id.value;
-    published[deps.size() - 1].store(1, std::memory_order_release);
-    return deps.size() - 1;
+    published[di].store(1, std::memory_order_release);
+    return di;
   }
   void on_win(size_t di, Item* p, bool quiet, int me) {
     Dep& d = deps[di];
@@ -730,6 +749,7 @@ void run_box(Chooser& c) {
         uint64_t x = B.next_x++;
         BoxWorld::VV id = B.box.emplace(x);
         if ((int)id.value >= BoxWorld::MAXS) dsched::fail("id-range", "emplace returned slot %u", id.value);
+        B.note_receipt(id, 0);
         if (i == 0) first = id;
         // the very first, long dead receipt is presented in every round
         else if (B.box.take_released(first) != nullptr)
@@ -770,13 +790,15 @@ void run_box(Chooser& c) {
     int nthreads = c.range(2, 4);
     std::vector<std::vector<COp>> plans((size_t)nthreads);
     for (int t = 0; t < nthreads; t++) {
-      int nops = c.range(1, 5);
+      int nops = c.range(1, 6);
       descf(" T%d[", t + 1);
       for (int i = 0; i < nops; i++) {
-        static const COpKind kinds[] = {C_TAKE, C_TAKE_RELEASED, C_TAKE, C_EMPLACE, C_TAKE_STALE, C_TAKE_RELEASED, C_EMPLACE};
+        // cycle = emplace + take + release of the own deposit in one go: a thread running such loops next to a
+        // thread that releases another slot is the shape in which a release loses its free-list CAS
+        static const COpKind kinds[] = {C_TAKE, C_TAKE_RELEASED, C_TAKE, C_EMPLACE, C_TAKE_STALE, C_TAKE_RELEASED, C_EMPLACE, C_CYCLE, C_CYCLE};
         COp op{c.pick(kinds), c.below(6)};
         plans[(size_t)t].push_back(op);
-        static const char* nm[] = {"take", "take_rel", "stale", "emplace"};
+        static const char* nm[] = {"take", "take_rel", "stale", "emplace", "cycle"};
         descf("%s%s:%u", i ? "," : "", nm[op.kind], op.arg);
       }
       descf("]");
@@ -815,6 +837,12 @@ void run_box(Chooser& c) {
               B.emplace(false, me);
               dsched::label("box_emplace");
               break;
+            case C_CYCLE: {
+              size_t di = B.emplace(false, me);
+              bool got = B.take(di, (op.arg & 1) != 0, false, me);
+              dsched::label(got ? "box_cycle_won" : "box_cycle_lost");
+              break;
+            }
           }
           dsched::point();
         }
